@@ -384,6 +384,10 @@ func (e *Exec) execRange(s *ast.RangeStmt, label string, st *State, ctx *Ctx, k 
 		if es == "Val" {
 			body.pc = append(body.pc, "(not (= "+v+" VAbsent))")
 		}
+		if es == "Int" {
+			e.note("slices of pointers are assumed to hold no nil entries (API misuse otherwise)")
+			body.pc = append(body.pc, "(not (= "+v+" 0))")
+		}
 		keyT, valT = idx, v
 		e.setGhost(body, li, "done'", "("+snoc+" "+done+" "+v+")")
 		e.setGhost(body, li, "rest'", rest2)
